@@ -4,6 +4,9 @@ import json, os
 here = os.path.dirname(os.path.dirname(os.path.abspath(__file__)))
 TECH = "deterministic simulation with fault injection"
 claimed = {
+ "C03": ("fault_enumeration", "for LocalStore, the real HTTP client/handler pair over an in-process transport and the casync protocol client/server over a pipe, under every compression/verification setting and seven wrapper stacks, the stored object of a chunk is corrupted in every enumerated way (every byte position and every truncation length for objects <= 512 bytes, replacement by other valid objects/frames/raw data/garbage, junk before/after, corrupted cache entry) and fetched through a fresh stack; extract and cat pipelines run over a poisoned store; oracle: error or data hashing to the requested ID",
+         "exhaustive over positions/lengths for small stored objects, sampled for larger; S3 and SFTP are not exercised; flips of the two zstd content-size-flag bits are skipped (they make the pinned zstd decoder allocate up to 64 GiB before rejecting the frame)",
+         TECH + " (stored-object fault enumeration over real stores and wrapper stacks, simulated transports)"),
  "C17": ("fault_enumeration", "for each generated blob and worker count the intact file must verify and every enumerated fault on the stored blob (a changed byte at every position of small blobs or at positions biased to first/last/batch-boundary chunks, truncation, extension, equal-size chunk swap) must make the real VerifyIndex fail, each verification run with its n workers under the seeded scheduler",
          "exhaustive over single-byte positions for blobs <= 1500 bytes, sampled otherwise; one bit flipped per byte",
          TECH + " (stored-blob fault enumeration under a seeded scheduler)"),
